@@ -415,7 +415,7 @@ impl DebugTracer {
         match val {
             Value::Str(s) => {
                 if s.len() > 40 {
-                    format!("String({}..)", &s[..40])
+                    format!("String({}..)", s.chars().take(40).collect::<String>())
                 } else {
                     format!("String({s})")
                 }
